@@ -84,6 +84,22 @@ func splitFields(s string) []string {
 	return out
 }
 
+// entryPointsToo: all config / status / deviation cases and every 16th feature case (those differ in
+// the enabled set only) are also compiled through the other entry points.
+func entryPointsToo(r caseRec) bool {
+	if r.Kind != "feature" {
+		return true
+	}
+	h := 0
+	for _, c := range r.Name {
+		h = h*31 + int(c)
+	}
+	return allEntryPoints || h&15 == 0
+}
+
+// allEntryPoints: thorough tier - every case goes through the other entry points too
+var allEntryPoints bool
+
 var reFeatureDecl = regexp.MustCompile(`feature ([A-Za-z0-9_.-]+) \{`)
 
 func check(r caseRec) (vs []engine.Violation, outcome string) {
@@ -95,6 +111,14 @@ func check(r caseRec) (vs []engine.Violation, outcome string) {
 		feats = []string{}
 	}
 	res := gen.Compile(r.Mods, gen.Options{Features: feats})
+	// every other public way into the compiler (trees + a directory of enabled features; module files
+	// of a directory + a Config with features from a directory, from names, from both) gives the same
+	// verdict and the same schema
+	if entryPointsToo(r) {
+		for _, d := range gen.EntryPointDisagreements(r.Mods, gen.Options{Features: feats}, res) {
+			mk(r.Kind+":entry-points-disagree:"+strings.SplitN(d, ":", 2)[0], d)
+		}
+	}
 	switch res.Verdict() {
 	case "panic", "nonterminating":
 		mk(r.Kind+"-"+res.Verdict(), fmt.Sprint(res.Panic))
@@ -822,6 +846,7 @@ func keyLeafCases() []caseRec {
 }
 
 func run(c *engine.Ctx) {
+	allEntryPoints = !c.Quick()
 	var all []caseRec
 	all = append(all, keyLeafCases()...)
 	all = append(all, sameNameFeatureCases()...)
